@@ -107,7 +107,12 @@ def _gen_panel(rng, tier, profile):
   if rng.random() < 0.15:
     for _ in range(rng.randrange(1, 4)):
       missing.append([rng.randrange(n_geos), rng.randrange(n_dates)])
+  # 4. response scale: units, thousands, millions, fractions
+  scale = rng.choice((1.0, 1.0, 1.0, 1e3, 1e6, 1e-3))
+  if scale != 1.0:
+    values = [[round(v * scale, 6) for v in row] for row in values]
   return {'geos': geos, 'id_type': 'int' if style == 'int' else 'str',
+          'extra_column': rng.random() < 0.5, 'scale': scale,
           'date_type': rng.choice(('iso', 'iso', 'ts', 'int')),
           'n_dates': n_dates, 'values': values, 'missing': missing,
           'row_order_seed': rng.randrange(10**6)}
@@ -149,9 +154,9 @@ def _gen_par(rng, panel, profile):
         ([0.05, 0.6], [0.1, 0.9], [0.3, 0.5], [0.01, 0.99]))
   if maybe(0.3):
     par['budget_range'] = rng.choice(
-        ([0.0, round(tot * 10, 2)], [0.0, round(tot * 0.05, 2)],
-         [round(tot * 0.001, 3), round(tot * 0.5, 2)],
-         [0.0, round(tot * 0.3, 2)]))
+        ([0.0, tot * 10], [0.0, tot * 0.05],
+         [tot * 0.001, tot * 0.5],
+         [0.0, tot * 0.3]))
   if maybe(0.3):
     par['treatment_geos_range'] = rng.choice(([1, 2], [2, 3], [1, 1], [1, 4]))
   if maybe(0.3):
@@ -340,6 +345,8 @@ class Env:
           rows.append((g, dates[di], float(panel['values'][gi][di]), 1.0))
     _random.Random(panel.get('row_order_seed', 0)).shuffle(rows)
     self._df0 = pd.DataFrame(rows, columns=['geo', 'date', 'response', 'cost'])
+    if not panel.get('extra_column', True):
+      del self._df0['cost']       # exactly the three required columns
     if desc.get('elig'):
       erows = [[int(r[0]) if as_int else str(r[0])] + list(r[1:])
                for r in desc['elig']]
@@ -350,6 +357,9 @@ class Env:
     self._par_kwargs = {}
     for k, v in desc['par'].items():
       self._par_kwargs[k] = tuple(v) if isinstance(v, list) else v
+
+  def set_parameters(self, kwargs):
+    self._par_kwargs = dict(kwargs)
 
   def frame(self):
     return self._df0.copy(deep=True)
@@ -551,6 +561,19 @@ def execute(desc):
   df0 = env.frame()
   elig0 = env.elig_frame()
   par_base = dataclasses.asdict(env.parameters())
+  if focus == 'C10':
+    # the caller-owned inputs right after the object was built from them
+    what = None
+    if not env.frame_intact(df_in, df0):
+      what = 'input frame'
+    elif not env.frame_intact(elig_in, elig0):
+      what = 'eligibility table'
+    elif dataclasses.asdict(par) != par_base:
+      what = 'parameter object'
+    if what:
+      v = core.violation(prop, 'I2', -1, 'construct',
+                         'building the objects modified the caller\'s ' + what)
+      return finish(v, [], ['ctor-modified'], False)
 
   # geometry of the index space, from a fresh object
   def geometry(mm_f):
@@ -855,9 +878,22 @@ def execute(desc):
           if akind in ('exhaustive', 'greedy', 'results'):
             results_trusted = False
           ev.append(['interrupted', list(val)])
-          # No relaxation for the caller-owned objects: "a search leaves the
-          # caller's parameter object and input frame unmodified" has no
-          # exemption for a search that ends in an exception (I2/I3 below).
+          # An injected interrupt can land anywhere -- also inside the very
+          # `finally:` block that restores the caller's parameters (seen in a
+          # thorough run: interrupt at 99.92 % of greedy_search's lines), and
+          # no Python code can be atomic against that.  So after an
+          # INTERRUPTED call the parameter object is taken as the caller now
+          # holds it: counted, re-baselined, and the reference is built from
+          # it from now on.  (Exceptions the library raises by itself never
+          # originate in cleanup code and relax nothing.)
+          now = dataclasses.asdict(par)
+          if now != par_base and focus == 'C10':
+            probe('param_leak_after_interrupt')
+            flags['par_touched'] = True
+            par_base = now
+            env.set_parameters(now)
+            for k in [k for k in memo if k != 'geometry']:
+              del memo[k]
         else:
           if intr:
             probe('interrupt_missed')
@@ -1073,6 +1109,10 @@ def simplifications(desc):
   if panel.get('missing'):
     d = copy.deepcopy(desc)
     d['panel']['missing'] = []
+    yield d
+  if not panel.get('extra_column', True):
+    d = copy.deepcopy(desc)
+    d['panel']['extra_column'] = True
     yield d
   if panel.get('id_type') != 'str' or panel.get('date_type') != 'iso':
     d = copy.deepcopy(desc)
